@@ -150,7 +150,8 @@ func c19Run(cfgs []streamCfg, order []int) string {
 		mux := diam.NewServeMux()
 		mux.HandleFunc("ALL", func(c diam.Conn, m *diam.Message) {
 			recs = append(recs, c19Rec{m.Header.HopByHopID, m.Header.EndToEndID, m.MessageStream(), m.Len()})
-			a := m.Answer(2001)
+			// replies are built with a Result-Code and, every other time, without one (Answer(0))
+			a := m.Answer([]uint32{2001, 0}[len(recs)%2])
 			a.Header.HopByHopID, a.Header.EndToEndID = m.Header.HopByHopID, m.Header.EndToEndID
 			a.WriteTo(c)
 		})
